@@ -2710,7 +2710,7 @@ impl Scenario for C16 {
         ]
     }
     fn watchdog_secs(&self) -> u64 {
-        60
+        300
     }
 }
 
